@@ -1203,43 +1203,134 @@ def attach(rule, sites, prefixes=None, only=None, exclude=()):
     return n
 
 
-def static_role(fn, call, argx):
-    """role of a fn.s / fn2.s argument from the closest dominating fnmake_* call in the same function"""
+def _role_name(c):
+    return 'bounce' if c.callee == 'fnmake2_bounce' else FNMAKE.get(c.callee)
+
+
+def exit_role(prog, f, which, depth=0):
+    """role of fn.s (which='G:fn.s') / fn2.s left by function f on return, if every return agrees; else None"""
+    cache = getattr(prog, '_exit_role', None)
+    if cache is None:
+        cache = prog._exit_role = {}
+    key = (f.name, which)
+    if key in cache:
+        return cache[key]
+    cache[key] = None
+    roles = set()
+    rets = [x for x in f.all_x() if x.k == 'ret']
+    ends = rets if rets else []
+    if not ends:
+        # falls off the end: use the last element of blocks that lead to the exit block
+        for b in f.blocks.values():
+            if f.exit in b.succs and b.elems:
+                ends.append(f.x(b.elems[-1]['i']))
+    for e in ends:
+        r = _resolve_local(prog, f, e, which, depth)
+        roles.add(r)
+    res = next(iter(roles)) if len(roles) == 1 and None not in roles else None
+    cache[key] = res
+    return res
+
+
+def _sets_name(prog, g, which, seen=()):
+    """does g (transitively, inside the unit) call a maker of `which`?"""
+    if g.name in seen:
+        return False
+    for c in g.calls():
+        if (c.callee in FNMAKE and which == 'G:fn.s') or (c.callee == 'fnmake2_bounce' and which == 'G:fn2.s'):
+            return True
+        h = prog.resolve(c.callee, g.unit) if c.callee else None
+        if h is not None and h.blocks and h.unit == g.unit and _sets_name(prog, h, which, seen + (g.name,)):
+            return True
+    return False
+
+
+def _makers(prog, f, which, depth):
+    out = []
+    for c in f.calls():
+        if (c.callee in FNMAKE and which == 'G:fn.s') or (c.callee == 'fnmake2_bounce' and which == 'G:fn2.s'):
+            out.append((c, _role_name(c)))
+        elif c.callee and depth < 3:
+            g = prog.resolve(c.callee, f.unit)
+            if g is not None and g.blocks and g.unit == f.unit and g.name != f.name:
+                r = exit_role(prog, g, which, depth + 1)
+                if r is not None:
+                    out.append((c, r))
+                elif _sets_name(prog, g, which):
+                    out.append((c, 'deferred'))     # leaves different names on different paths: only a path-sensitive run can tell
+    return out
+
+
+def _resolve_local(prog, f, x, which, depth):
+    """role at element x inside f from the makers of f alone (None if no maker dominates x)"""
+    makers = _makers(prog, f, which, depth)
+    doms = [(m, r) for m, r in makers if f.dominates(m, x)]
+    if not doms:
+        return None
+    best, brole = doms[0]
+    for m, r in doms[1:]:
+        if f.dominates(best, m):
+            best, brole = m, r
+    bb, ib = f.pos[best.id]
+    bc, ic = f.pos[x.id]
+    for m, r in makers:
+        if m is best or r == brole:
+            continue
+        bm, im = f.pos[m.id]
+        if bb == bc:
+            between = bm == bb and ib < im < ic
+        elif bm == bb:
+            between = im > ib
+        elif bm == bc:
+            between = im < ic
+        else:
+            between = f.can_reach(bb, bm) and f.can_reach(bm, bc, avoid={bb}) and not f.dominates(m, best)
+        if between:
+            return ('ambiguous', brole, r)
+    return brole
+
+
+def static_role(fn, call, argx, prog=None, depth=0):
+    """role of a fn.s / fn2.s argument: from the closest dominating fnmake_* (or helper that always leaves one
+    role) in the same function; if the function itself never sets it, from its call sites in the unit"""
     p = argx.path()
     if p not in ('G:fn.s', 'G:fn2.s'):
         s = argx.string
         return ('lit', s) if s is not None else None
-    makers = [c for c in fn.calls() if (c.callee in FNMAKE and p == 'G:fn.s') or (c.callee == 'fnmake2_bounce' and p == 'G:fn2.s')]
-    doms = [m for m in makers if fn.dominates(m, call)]
-    if not doms:
+    if prog is None:
+        prog = _PROG[0]
+    r = _resolve_local(prog, fn, call, p, depth)
+    if r is not None:
+        return r
+    if depth >= 3:
         return None
-    best = doms[0]
-    for m in doms[1:]:
-        if fn.dominates(best, m):
-            best = m
-    # another maker on a path from `best` to the call makes the role ambiguous
-    bb, ib = fn.pos[best.id]
-    bc, ic = fn.pos[call.id]
-    for m in makers:
-        if m is best:
+    roles = set()
+    for g in prog.functions():
+        if g.unit != fn.unit or g.name == fn.name:
             continue
-        bm, im = fn.pos[m.id]
-        between = False
-        if bb == bc:
-            between = bm == bb and ib < im < ic
-        else:
-            if bm == bb:
-                between = im > ib
-            elif bm == bc:
-                between = im < ic
-            else:
-                between = fn.can_reach(bb, bm) and fn.can_reach(bm, bc, avoid={bb}) and not fn.dominates(m, best)
-        if between:
-            r1 = 'bounce' if m.callee == 'fnmake2_bounce' else FNMAKE[m.callee]
-            r0 = 'bounce' if best.callee == 'fnmake2_bounce' else FNMAKE[best.callee]
-            if r1 != r0:
-                return ('ambiguous', r0, r1)
-    return 'bounce' if best.callee == 'fnmake2_bounce' else FNMAKE[best.callee]
+        for c in g.calls(fn.name):
+            roles.add(_site_role(prog, g, c, p, depth + 1))
+    if len(roles) == 1:
+        return next(iter(roles))
+    return None if not roles or None in roles else ('ambiguous',) + tuple(sorted(map(str, roles)))
+
+
+def _site_role(prog, g, c, which, depth):
+    r = _resolve_local(prog, g, c, which, depth)
+    if r is not None:
+        return r
+    roles = set()
+    if depth >= 3:
+        return None
+    for h in prog.functions():
+        if h.unit != g.unit or h.name == g.name:
+            continue
+        for cc in h.calls(g.name):
+            roles.add(_site_role(prog, h, cc, which, depth + 1))
+    return next(iter(roles)) if len(roles) == 1 else None
+
+
+_PROG = [None]
 
 
 EFFECT_PRIMS = {'unlink': 0, 'rename': 0, 'link': 1, 'open_excl': 0, 'open_trunc': 0, 'open_write': 0, 'open_append': 0,
@@ -1260,10 +1351,30 @@ SEND_TABLE = {
 
 
 def effect_sites(db):
-    """R-EFFECT over qmail-send.c: every mutating file primitive on a queue name is in the table"""
+    """R-EFFECT over qmail-send.c: every mutating file primitive on a queue name is in the table.  A site inside a
+    helper counts for every table function (root) that can reach the helper; a site no root reaches is unknown."""
     prog = db.program('qmail-send')
+    _PROG[0] = prog
     out = {}
     n = 0
+    roots = {k[0] for k in SEND_TABLE}
+    callers = {}
+    for fn in prog.functions():
+        if fn.unit != 'qmail-send.c':
+            continue
+        for c in fn.calls():
+            if c.callee:
+                callers.setdefault(c.callee, set()).add(fn.name)
+
+    def roots_of(name, seen=()):
+        if name in roots:
+            return {name}
+        if name in seen:
+            return set()
+        r = set()
+        for g in callers.get(name, ()):
+            r |= roots_of(g, seen + (name,))
+        return r
     for fn in prog.functions():
         if fn.unit != 'qmail-send.c':
             continue
@@ -1271,17 +1382,28 @@ def effect_sites(db):
             idx = EFFECT_PRIMS[c.callee]
             if idx >= len(c.args):
                 continue
-            role = static_role(fn, c, c.args[idx])
+            role = static_role(fn, c, c.args[idx], prog)
             if role is None:
                 raise AnalysisBroken('%s: cannot resolve which queue file %s(%s) names in %s' % (c.where, c.callee, c.args[idx].src(), fn.name))
             if isinstance(role, tuple) and role[0] == 'lit':
                 continue       # lock/..., fixed non-queue names
+            if role == 'deferred' or (isinstance(role, tuple) and role[0] == 'ambiguous' and 'deferred' in role):
+                # decided path-sensitively by the typestate runs of these roots (their own who-may sites)
+                if roots_of(fn.name) and roots_of(fn.name) <= {'todo_do', 'messdone', 'injectbounce', 'job_close'}:
+                    n += 1
+                    continue
+                raise AnalysisBroken('%s: the file %s(%s) names in %s depends on the path through a helper' % (c.where, c.callee, c.args[idx].src(), fn.name))
             if isinstance(role, tuple) and role[0] == 'ambiguous':
                 raise AnalysisBroken('%s: ambiguous file role %s for %s in %s' % (c.where, role, c.callee, fn.name))
             n += 1
-            key = (fn.name, c.callee, role)
-            ok = key in SEND_TABLE or role not in PROTECTED
-            out['effect:%s:%s:%s' % key] = (ok, c.where, '%s() %ss a file with role %s: not in the instance table (mess/, intd/, todo/ are removed only by qmail-clean)' % (fn.name, c.callee, role), [])
+            if role not in PROTECTED:
+                continue
+            rs = roots_of(fn.name)
+            for root in (rs or {fn.name}):
+                key = (root, c.callee, role)
+                out['effect:%s:%s:%s' % key] = (key in SEND_TABLE, c.where,
+                                                '%s() (reached from %s) %ss a file with role %s: not in the instance table (mess/, intd/, todo/ are removed only by qmail-clean)' %
+                                                (fn.name, root, c.callee, role), [])
     if n < 9:
         raise AnalysisBroken('qmail-send.c: only %d effect sites resolved (confirmed minimum 9)' % n)
     # markdone writes exactly one byte "D" at pos
